@@ -33,6 +33,7 @@ func hPre(n int, kind string, s []Action) Op {
 func hPreNone(n int) Op               { return Op{Op: "preload", N: n} }
 func hFile(d, n int, s []Action) Op   { return Op{Op: "file", D: d, N: n, File: &File{Script: s}} }
 func hBroken(d, n int) Op             { return Op{Op: "file", D: d, N: n, File: &File{Broken: true}} }
+func hUnreadable(d, n int) Op         { return Op{Op: "file", D: d, N: n, File: &File{Unreadable: true}} }
 func hFileNone(d, n int) Op           { return Op{Op: "file", D: d, N: n} }
 func hPath(p ...int) Op               { return Op{Op: "path", Path: p} }
 func hClear(n int) Op                 { return Op{Op: "clear", N: n} }
@@ -83,6 +84,10 @@ func corpus(w *lib.Writer, env *envT) {
 		{hPre(0, "go", sc(fail())), hReq(0), hReq(0), hGetL(0)},
 		{hPre(0, "lua", sc(req(1))), hReq(0), hGetL(0), hPre(1, "lua", sc()), hReq(0), hClear(0), hReq(0)},
 		{hBroken(0, 0), hFile(1, 0, sc()), hReq(0), hGetL(0), hFileNone(0, 0), hReq(0)},
+		// hunt2 obs-1: a candidate that exists but cannot be opened is listed and skipped (5.1 readable())
+		{hUnreadable(0, 0), hFile(1, 0, sc(ret(eStr(0)))), hReq(0), hReq(0), hGetL(0)},
+		{hUnreadable(0, 2), hUnreadable(1, 2), hReq(2), hGetL(2), hFile(1, 2, sc(ret(eTab(0)))), hReq(2), hUnreadable(1, 2), hReq(2), hClear(2), hReq(2)},
+		{hUnreadable(1, 1), hPre(0, "lua", sc(req(1), ret(eStr(1)))), hReq(0), hGetL(0), hGetL(1)},
 		{hFile(0, 0, sc(req(1))), hBroken(1, 1), hReq(0), hGetL(0), hGetL(1), hReq(1), hReq(0)},
 		// stat failing with something else than "does not exist" still means "not there": a path entry
 		// running through a regular file (ENOTDIR), a name too long for a file name (ENAMETOOLONG)
@@ -314,6 +319,9 @@ func genRandom(w *lib.Writer, env *envT, r *lib.Rand, tier string) {
 		if cr.Chance(15) {
 			ops = append(ops, hBroken(cr.Intn(2), cr.Intn(nn)))
 		}
+		if cr.Chance(15) {
+			ops = append(ops, hUnreadable(0, cr.Intn(nn)))
+		}
 		steps := cr.Range(5, 14)
 		for i := 0; i < steps; i++ {
 			m := cr.Intn(nn)
@@ -331,7 +339,11 @@ func genRandom(w *lib.Writer, env *envT, r *lib.Rand, tier string) {
 			case 3:
 				ops = append(ops, hFile(cr.Intn(nDirs), m, randScript(cr, nn)))
 			case 4:
-				ops = append(ops, hBroken(cr.Intn(nDirs), m))
+				if cr.Chance(50) {
+					ops = append(ops, hUnreadable(cr.Intn(nDirs), m))
+				} else {
+					ops = append(ops, hBroken(cr.Intn(nDirs), m))
+				}
 			case 5:
 				ops = append(ops, hFileNone(cr.Intn(nDirs), m))
 			case 6:
